@@ -172,7 +172,7 @@ func suiteConfigs() []otp.SuiteConfig {
 	for m := 0; m < 32; m++ {
 		for _, qf := range []int{-1, 0, 1, 2, 3, 4, 5, 6, 7, 1 << 31} {
 			for _, ph := range []int{-1, 0, 1, 2, 3, 7, 1 << 31} {
-				for _, d := range []int{-1 << 63, -1, 0, 3, 4, 6, 10, 11, 12, 255, 1 << 31, 1<<63 - 1} {
+				for _, d := range []int{-1 << 63, -1, 0, 3, 4, 6, 10, 11, 12, 255, 1 << 31, 1<<63 - 1, 260, 262, 266, 65542, 1<<32 + 6, -250} {
 					for _, h := range []int{0, 1, 2, 3, 4, 255} {
 						for _, ts := range []int{-1, 0, 1, 60} {
 							if (m+qf+ph+d+h+ts)%3 != 0 && !(qf >= 0 && qf <= 6 && ph >= 0 && ph <= 3) {
